@@ -623,7 +623,12 @@ func Call(d time.Duration, f func()) (returned bool) {
 	var pv any
 	go func() {
 		defer close(done)
-		defer func() { pv = recover() }()
+		defer func() {
+			if e := recover(); e != nil {
+				// keep the stack of the goroutine that panicked: the caller re-panics elsewhere
+				pv = fmt.Sprintf("%v\n%s", e, shortStack())
+			}
+		}()
 		f()
 	}()
 	if !Await(done, d, "github.com/biogo/hts") {
